@@ -10,6 +10,7 @@ package roregexp
 //@ func FilterMatch$1
 //@   props C18
 //@   binds v pattern
+//@   calls Match
 //@   maypanic
 //@   track call.*
 //@   ensures [calls-the-wrapped-function-once|C18] count(call.ANY) == 1 && called(call.Regexp.Match)
@@ -19,6 +20,7 @@ package roregexp
 //@ func FilterMatchString$1
 //@   props C18
 //@   binds v pattern
+//@   calls MatchString
 //@   maypanic
 //@   track call.*
 //@   ensures [calls-the-wrapped-function-once|C18] count(call.ANY) == 1 && called(call.Regexp.MatchString)
@@ -28,6 +30,7 @@ package roregexp
 //@ func Find$1
 //@   props C18
 //@   binds v pattern
+//@   calls Find
 //@   maypanic
 //@   track call.*
 //@   ensures [calls-the-wrapped-function-once|C18] count(call.ANY) == 1 && called(call.Regexp.Find)
@@ -37,6 +40,7 @@ package roregexp
 //@ func FindAll$1
 //@   props C18
 //@   binds v pattern n
+//@   calls FindAll
 //@   maypanic
 //@   track call.*
 //@   ensures [calls-the-wrapped-function-once|C18] count(call.ANY) == 1 && called(call.Regexp.FindAll)
@@ -46,6 +50,7 @@ package roregexp
 //@ func FindAllString$1
 //@   props C18
 //@   binds v pattern n
+//@   calls FindAllString
 //@   maypanic
 //@   track call.*
 //@   ensures [calls-the-wrapped-function-once|C18] count(call.ANY) == 1 && called(call.Regexp.FindAllString)
@@ -55,6 +60,7 @@ package roregexp
 //@ func FindAllStringSubmatch$1
 //@   props C18
 //@   binds v pattern n
+//@   calls FindAllStringSubmatch
 //@   maypanic
 //@   track call.*
 //@   ensures [calls-the-wrapped-function-once|C18] count(call.ANY) == 1 && called(call.Regexp.FindAllStringSubmatch)
@@ -64,6 +70,7 @@ package roregexp
 //@ func FindAllSubmatch$1
 //@   props C18
 //@   binds v pattern n
+//@   calls FindAllSubmatch
 //@   maypanic
 //@   track call.*
 //@   ensures [calls-the-wrapped-function-once|C18] count(call.ANY) == 1 && called(call.Regexp.FindAllSubmatch)
@@ -73,6 +80,7 @@ package roregexp
 //@ func FindString$1
 //@   props C18
 //@   binds v pattern
+//@   calls FindString
 //@   maypanic
 //@   track call.*
 //@   ensures [calls-the-wrapped-function-once|C18] count(call.ANY) == 1 && called(call.Regexp.FindString)
@@ -82,6 +90,7 @@ package roregexp
 //@ func FindStringSubmatch$1
 //@   props C18
 //@   binds v pattern
+//@   calls FindStringSubmatch
 //@   maypanic
 //@   track call.*
 //@   ensures [calls-the-wrapped-function-once|C18] count(call.ANY) == 1 && called(call.Regexp.FindStringSubmatch)
@@ -91,6 +100,7 @@ package roregexp
 //@ func FindSubmatch$1
 //@   props C18
 //@   binds v pattern
+//@   calls FindSubmatch
 //@   maypanic
 //@   track call.*
 //@   ensures [calls-the-wrapped-function-once|C18] count(call.ANY) == 1 && called(call.Regexp.FindSubmatch)
@@ -100,6 +110,7 @@ package roregexp
 //@ func Match$1
 //@   props C18
 //@   binds v pattern
+//@   calls Match
 //@   maypanic
 //@   track call.*
 //@   ensures [calls-the-wrapped-function-once|C18] count(call.ANY) == 1 && called(call.Regexp.Match)
@@ -109,6 +120,7 @@ package roregexp
 //@ func MatchString$1
 //@   props C18
 //@   binds v pattern
+//@   calls MatchString
 //@   maypanic
 //@   track call.*
 //@   ensures [calls-the-wrapped-function-once|C18] count(call.ANY) == 1 && called(call.Regexp.MatchString)
@@ -118,6 +130,7 @@ package roregexp
 //@ func ReplaceAll$1
 //@   props C18
 //@   binds v pattern repl
+//@   calls ReplaceAll
 //@   maypanic
 //@   track call.*
 //@   ensures [calls-the-wrapped-function-once|C18] count(call.ANY) == 1 && called(call.Regexp.ReplaceAll)
@@ -127,6 +140,7 @@ package roregexp
 //@ func ReplaceAllString$1
 //@   props C18
 //@   binds v pattern repl
+//@   calls ReplaceAllString
 //@   maypanic
 //@   track call.*
 //@   ensures [calls-the-wrapped-function-once|C18] count(call.ANY) == 1 && called(call.Regexp.ReplaceAllString)
